@@ -1,4 +1,5 @@
 import RimeModel.Session.Commit
+import RimeModel.Session.InvProc
 /-!
 C03 — what is committed is what was shown, and it is delivered exactly once.  Property theorems only.
 Model: RimeModel/Session/* (see C02).  `env.format` is the shape formatter (identity when full_shape is off).
@@ -40,6 +41,24 @@ theorem select_to_end (env : Env) (c : Ctx) (g : Seg) (i : Nat) (cd : Cand)
     simp only [hcand]
   rw [hc']
   exact h
+
+/-- (b) for every state REACHABLE by a finite API history from a fresh session (any environment with
+`ComposeSpec`): the length hypothesis of `select_to_end` is an invariant, so only the property's own
+premise remains (candidate and last segment end at the end of the raw input, option `dumb` off) -/
+theorem select_to_end_reachable (env : Env) (hrc : ComposeSpec env.recompose) (c0 : Ctx)
+    (h0 : c0.input = [] ∧ c0.caret = 0 ∧ c0.comp.segs = [] ∧ c0.comp.input = []) (ops : List Op)
+    (g : Seg) (i : Nat) (cd : Cand)
+    (hlast : (runOps env c0 ops).comp.segs.getLast? = some g) (hcand : g.candAt i = some cd)
+    (hstop : cd.stop = (runOps env c0 ops).input.length) (hg : g.stop = (runOps env c0 ops).input.length)
+    (hd : (runOps env c0 ops).getOption "dumb" = false) :
+    let c := runOps env c0 ops
+    let c' := (Ctx.select env c i).1
+    (c.getOption "_auto_commit" = true → c'.commitBuf = c.commitBuf ++ env.format (shownPrefix c ++ cd.text)) ∧
+    (c.getOption "_auto_commit" = false → c'.commitText = shownPrefix c ++ cd.text ∧ c'.commitBuf = c.commitBuf) := by
+  have hinv : Inv (runOps env c0 ops) :=
+    runOps_inv hrc ops ⟨⟨by rw [h0.1, h0.2.1]; exact Nat.le_refl _, by rw [h0.2.2.1]; exact SegsOK.nil⟩,
+      by rw [h0.2.2.2, h0.1]; exact Nat.le_refl _⟩
+  exact select_to_end env _ g i cd hlast hcand hstop hg hinv.cinput_le hd
 
 /-- the same through the API: `select_candidate_on_current_page i` addresses global index
 `page_start + i`, where `page_start` is the first index of the page `get_context` displays -/
